@@ -5,7 +5,9 @@
 #               (names, kinds, ranges, children); the spec comparison uses the verdict of the Gallina judge
 #               (Spec/SymbolSpec.v: every reference declaration covered by an entry with a good range) that the model
 #               driver prints in its spec column, itemised with the cause (class) of every deviation.
-#   c19.wssym   1-3 files + workspace/symbol queries for exact declared names (and one absent name).
+#   c19.wssym   1-3 files + workspace/symbol queries for exact declared names (and one absent name). Demanded: every
+#               global (G), every function-valued member at any depth (F) and every function-valued local declaration
+#               at any nesting depth (N, each declaration separately) of that name, located at its identifier.
 #   c19.wsbig   workspaces with > 200 symbols (the truncation after sorting by score): projection = number of
 #               returned symbols + the entries whose name is the query.
 #   c19.score   the fuzzy matcher (oracle of C19_workspace_exact): Score(n, n) = 1 and Score <= 1 on every generated name.
@@ -148,6 +150,23 @@ class Gen:
             else:
                 tgt = [self.name(), ".", self.key(), ":", self.key()]
             return ["function"] + tgt + self.params() + self.block(d - 1, r.choice([0, 1, 2, 3])) + ["end"]
+        if k < 0.56:
+            # the table of globals: `_G.n = v`, `_G.n.k = v`, `function _G.n.k() end`, `_G["n"] = v`, reads of `_G.n`
+            m = r.random()
+            if m < 0.35:
+                return ["_G", ".", self.name(), "="] + self.value(d)
+            if m < 0.55:
+                return ["function", "_G", ".", self.name(), r.choice([".", ":"]), self.key()] + self.params() + \
+                    self.block(d - 1, r.choice([0, 1, 2])) + ["end"]
+            if m < 0.7:
+                return ["_G", ".", self.name(), ".", self.key(), "="] + self.value(d)
+            if m < 0.78:
+                return ["function", "_G", ".", self.name()] + self.params() + self.block(d - 1, r.choice([0, 1])) + ["end"]
+            if m < 0.84:
+                return ["_G", "[", '"' + self.name() + '"', "]", "="] + self.value(d)
+            if m < 0.9:
+                return ["_G", ".", self.name(), ".", self.key(), ".", self.key(), "="] + self.value(d)
+            return ["print", "(", "_G", ".", self.name(), ")"]
         if k < 0.66:
             m = r.random()
             if m < 0.6:
@@ -257,12 +276,24 @@ WITNESS_SHAPES = [
     "function M.f() end\nfunction M:m(a) end\nM.v = 1\n",
     "M = {}\nfunction M.own() end\n",
     "t.f = nil\nfunction t:f() end\nlocal lt = {}\nlt.g = function() end\n",
+    # the five reports of round 3 (agent c19-rest)
+    "function init() Cfg = {} end\ninit()\nfunction Cfg.load() end\n",
+    "if true then Blk = {} end\nfunction Blk.f() end\nBlk.g = function(a) end\n",
+    "local function dup() end\nlocal dup = 5\n",
+    "local dup = function() end\nlocal function dup(a) end\ndo local function dup() end local dup = 1 end\n",
+    "function gouter()\n  local function inner() end\n  local v = function(a) end\nend\n",
+    "M = {}\nfunction M.f()\n  local function deep() end\nend\nfunction M:m()\n  local function deep2() end\nend\n",
+    "_G.GT = {}\nfunction _G.GT.f() end\n_G.GT.v = 1\nfunction _G.GT:m(a) end\n",
+    "_G.gf = function(a) end\nfunction _G.gg() end\n_G.gv = 1\nprint(_G.other)\n",
+    "N = { sub = { f = function() end } }\nfunction N.sub.h() end\nlocal L = { q = {} }\nfunction L.q.s() end\n",
+    "function g() T = { a = 1 } end\nT = { f = function() end }\nfunction T.h() end\n",
+    "do Blk2 = {} end\nfunction Blk2:m() end\nwhile x do W = {} end\nW.f = function() end\n",
 ]
 
 
 def gen_file(rng, tier):
     k = rng.random()
-    if k < 0.06:
+    if k < 0.09:
         src = rng.choice(WITNESS_SHAPES).encode()
         if rng.random() < 0.5:       # shifted by a random prefix so that columns/lines vary
             src = (rng.choice(["\n", "local q0 = 0\n", "  ", "-- c\n\n"]) * rng.choice([1, 2, 5])).encode() + src
@@ -298,10 +329,22 @@ IDENT = re.compile(rb"[A-Za-z_][A-Za-z0-9_]*")
 MEMBER = re.compile(rb"([A-Za-z_][A-Za-z0-9_]*)\s*[.:]\s*([A-Za-z_][A-Za-z0-9_]*)")
 
 
+CHAIN = re.compile(rb"[A-Za-z_][A-Za-z0-9_]*(?:\s*[.:]\s*[A-Za-z_][A-Za-z0-9_]*){2,}")
+
+
 def names_in(files, rng, k):
     """candidate exact names: identifiers of the files, the member pairs b.k / b:k written in them, random pairs"""
     ids = sorted({m.group(0).decode() for f in files for m in IDENT.finditer(f)} - set(KW))
-    pairs = sorted({(m.group(1) + b"." + m.group(2)).decode() for f in files for m in MEMBER.finditer(f)})
+    pairs = {(m.group(1) + b"." + m.group(2)).decode() for f in files for m in MEMBER.finditer(f)}
+    for f in files:                      # longer chains a.b.c and their suffixes, `_G.` dropped
+        for m in CHAIN.finditer(f):
+            parts = [x.decode() for x in re.split(rb"\s*[.:]\s*", m.group(0))]
+            if parts and parts[0] == "_G":
+                parts = parts[1:]
+            for a in range(len(parts)):
+                for b in range(a + 2, len(parts) + 1):
+                    pairs.add(".".join(parts[a:b]))
+    pairs = sorted(pairs)
     if not ids:
         return ["zz"]
     out = []
@@ -416,6 +459,8 @@ def undecorate(name):
     i = name.find("(")
     if i >= 0:
         name = name[:i]
+    if not loc and name.startswith("_G."):         # ContainerName "_G" of a global defined through `_G.name = ...`
+        name = name[3:]
     return loc, name.replace(":", ".")
 
 
@@ -490,6 +535,8 @@ def judge(obs, spec):
             except Exception:
                 return ["unparsed"]
             for (k, key, locs) in decls[i]:
+                if k == "N":             # function-valued local declaration: demanded of workspace/symbol only
+                    continue
                 c = [e for e in es if e[2] == key and ((k == "L" and e[0] and not e[1]) or (k == "G" and not e[0] and not e[1])
                                                       or (k == "F" and e[1]))]
                 tag = None
@@ -506,8 +553,8 @@ def judge(obs, spec):
             qpos += 1
             ans = []
             for m in re.finditer(r"((?:[0-9a-f]{2})+|-)/(\d+)@f(\d+)\.lua@(\d+):(\d+)-(\d+):(\d+)", st):
-                ans.append((bytes.fromhex(m.group(1)).decode("latin1") if m.group(1) != "-" else "", int(m.group(3)),
-                            tuple(int(m.group(j)) for j in (4, 5, 6, 7))))
+                nm = bytes.fromhex(m.group(1)).decode("latin1") if m.group(1) != "-" else ""
+                ans.append((nm[3:] if nm.startswith("_G.") else nm, int(m.group(3)), tuple(int(m.group(j)) for j in (4, 5, 6, 7))))
             for (f, (k, key, locs)) in ds:
                 if not any(n == key and ff == f and any(r == (a - 1, b, c - 1, d) for (a, b, c, d) in locs) for (n, ff, r) in ans):
                     items.append("wsmissing:%d:%s:%s" % (f, k, key))
@@ -648,7 +695,12 @@ TRUSTED = vlib.TRUSTED_COMMON + [
     "cgTableConstructorExp, scope creation of every block statement), FindAllSymbol / FindAllLocalVal / FindAllVar "
     "(one model flag per repaired defect, Symbols.fixes; deployed = all repairs), lexer.Location.Union, the workspace "
     "merge of members defined on undefined names (generateAllGlobalMaps; ambiguous merges are skipped), "
-    "transferSymbolVec, getQuerySymbols; annotation symbols (---@class) and _G./self. targets are outside the fragment",
+    "transferSymbolVec, getQuerySymbols (three more flags for the workspace/symbol repairs of round 3), `_G.name = v` / "
+    "`_G.t.k = v` targets and reads of `_G.name` (GFlag globals, analysisNoDefineStr), the checkLeftAssign fall-back to a "
+    "global defined at a deeper level (Symbols.deep_global_fix); annotation symbols (---@class), `self.` targets, a bare "
+    "`_G = v` and `local` statements with a function literal in a later value are outside the fragment (SKIP-FRAGMENT)",
+    "open classes are exact boolean predicates extracted from Coq (SymbolsJudge.cls_depth2, cls_member_lost); any other "
+    "deviation of the model's answer from the reference declaration list is class `unexplained` = VIOLATION",
     "Python judge in checks/c19.py: only labels correspondence breaks and cross-checks the Gallina judge",
 ]
 ASSUME = [
